@@ -73,7 +73,15 @@ def gen_increasing(rng, n, first_lo=-30):
     return start, ts
 
 
-def gen_plan(rng, n):
+# tokens of arrays with a non-finite entry (a model flags dead pixels NaN / saturated pixels ±inf)
+NAN_TOK, INF_TOK, NINF_TOK = 900_000_001, 900_000_002, 900_000_003
+
+
+def special_tok(rng, b):
+    return rng.choice([NAN_TOK, INF_TOK] if b == "photon" else [NAN_TOK, NAN_TOK, INF_TOK, NINF_TOK])
+
+
+def gen_plan(rng, n, nonfinite=0.06):
     plan = []
     for _ in range(n):
         ops = []
@@ -86,6 +94,8 @@ def gen_plan(rng, n):
                     ops.append(["set", "pixel", rng.randrange(0, 900)])
                 elif r < 0.70:
                     ops.append(["set", "pixel", None])
+                elif r < 0.70 + nonfinite:
+                    ops.append(["set", "pixel", special_tok(rng, b)])
             elif b == "charge":
                 if r < 0.45:
                     ops.append(["set", "charge", rng.randrange(1, 900)])
@@ -93,6 +103,8 @@ def gen_plan(rng, n):
                     ops.append(["set", "charge", 10**6 + rng.randrange(1, 900)])  # a cluster in the frame
             elif r < 0.55:
                 ops.append(["set", b, rng.randrange(1, 900)])
+            elif r < 0.55 + nonfinite / 2 and b in ("photon", "signal"):
+                ops.append(["set", b, special_tok(rng, b)])
         rng.shuffle(ops)
         plan.append(ops)
     return plan
@@ -105,6 +117,8 @@ def gen_prior(rng):
             k = rng.randrange(1, 900)
             if b == "charge" and rng.random() < 0.3:
                 k += 10**6
+            elif b in ("pixel", "photon", "signal", "charge") and rng.random() < (0.25 if b == "pixel" else 0.1):
+                k = special_tok(rng, b)
             toks.append(k)
         else:
             toks.append(0 if b == "pixel" else None)
@@ -465,17 +479,23 @@ def run_other_mode(case, readout, det, tmpdir):
     return {"runs": runs, "op_ok": []}
 
 
-def run_impl(case):
-    """-> {"error": kind, "stage": s, "calls": n, "op_ok": [...]} or {"obs": [...], "op_ok": [...], "rp_same": b}"""
+def run_impl(case, det=None):
+    """-> {"error": kind, "stage": s, "calls": n, "op_ok": [...]} or {"obs": [...], "op_ok": [...], "rp_same": b};
+    a history case ({"history": [sub-case …]}) -> {"history": [result of each run, all on ONE detector object]}"""
     import probes
     import pyx
     import pyxel
     from pyxel.exposure import Exposure, Readout
 
+    if "history" in case:
+        hdet = pyx.make_detector(case.get("detector", "CCD"), 2, 3)
+        probes.c02_apply(hdet, [["set", b, k] for b, k in zip(BUCKETS, case["prior"]["tokens"])])
+        return {"history": [run_impl(sub, hdet) for sub in case["history"]]}
     tmpdir = tempfile.mkdtemp(prefix="c02_")
     try:
-        det = pyx.make_detector(case.get("detector", "CCD"), 2, 3)
-        prior = case["prior"]
+        reused = det is not None
+        det = det or pyx.make_detector(case.get("detector", "CCD"), 2, 3)
+        prior = {"tokens": [], "earlier": None, "tokens_after_earlier": False} if reused else case["prior"]
         earlier = prior.get("earlier")
         if earlier and not prior.get("tokens_after_earlier", True):
             probes.c02_apply(det, [["set", b, k] for b, k in zip(BUCKETS, prior["tokens"])])
@@ -484,7 +504,7 @@ def run_impl(case):
             probes.C02["calls"], probes.C02["plan"] = 0, earlier["plan"]
             ro = Readout(times=[fx(s) for s in earlier["times"]], start_time=fx(earlier["start"]), non_destructive=earlier["nd"])
             pyxel.run_mode(mode=Exposure(readout=ro), detector=det, pipeline=pipeline())
-        if not earlier or prior.get("tokens_after_earlier", True):
+        if not reused and (not earlier or prior.get("tokens_after_earlier", True)):
             probes.c02_apply(det, [["set", b, k] for b, k in zip(BUCKETS, prior["tokens"])])
         case["_prior_seen"] = probes.c02_state(det)
         probes.reset()
@@ -567,6 +587,12 @@ def xf(j):
 
 def property_predicate(case, impl):
     """-> None or (key, text)"""
+    if "history" in impl:  # several runs in a row on one detector object: each judged with its own Readout
+        for k, (sub, si) in enumerate(zip(case["history"], impl["history"])):
+            why = property_predicate(sub, si)
+            if why:
+                return (why[0], f"run #{k} of {len(case['history'])} on one detector object: {why[1]}")
+        return None
     if "runs" in impl:  # Observation / Calibration: every execution of the pipeline is judged like an exposure
         for k, run in enumerate(impl["runs"]):
             why = property_predicate_one(case, {"obs": run["obs"], "rp_same": run["rp_same"], "op_ok": []})
@@ -620,6 +646,29 @@ def property_predicate_one(case, impl):
         if beg[3] != want:
             return ("C02:pixel-begin", f"step {i} ({'non-' if nd else ''}destructive): pixel token {beg[3]} at the beginning, statement says {want}")
     return None
+
+
+def run_impl_packed(case):
+    impl = run_impl(case)
+    if "history" in case:
+        return impl, [sub.get("_prior_seen") for sub in case["history"]]
+    return impl, case.get("_prior_seen")
+
+
+def pool_map(fn, items):
+    """implementation side in forked workers (pyxel is imported lazily inside them)"""
+    import multiprocessing as mp
+
+    if len(items) < 8:
+        return [fn(x) for x in items]
+    with mp.get_context("fork").Pool(min(8, os.cpu_count() or 4)) as pool:
+        return pool.map(fn, items, chunksize=4)
+
+
+def strip_private(case):
+    if "history" in case:
+        return dict({k: v for k, v in case.items() if not k.startswith("_")}, history=[strip_private(c) for c in case["history"]])
+    return {k: v for k, v in case.items() if not k.startswith("_")}
 
 
 def canon_impl(impl):
@@ -701,6 +750,32 @@ def gen_tiny_dyadic(rng):
     return base_case(rng, start, ts, form=rng.choice(["seq", "tuple", "file_npy"]))
 
 
+def gen_history(rng):
+    """2-3 exposures in a row on ONE detector object: same times and mode with different start times (valid, and
+    invalid through the setter), or same start time and different times; every run is judged with its own Readout"""
+    n = rng.choice([1, 2, 3])
+    start, ts = gen_increasing(rng, n)
+    nd = rng.random() < 0.5
+    subs = []
+    for k in range(rng.choice([2, 3, 3])):
+        r = rng.random()
+        s_k, t_k, ops = start, ts, []
+        if k > 0 and r < 0.6:
+            s_k = ts[0] - rng.randrange(1, 200) / 8.0  # same times, another (valid) start time
+        elif k > 0 and r < 0.75:
+            ops = [["setStart", "nan"]]  # same times, start changed to NaN through the weak setter: must be refused
+        elif k > 0 and r < 0.9:
+            _, t_k = gen_increasing(rng, rng.choice([1, 2, 3]), first_lo=int(start) + 1)  # same start, other times
+            if not all(start < t for t in t_k):
+                t_k = ts
+        sub = base_case(rng, s_k, t_k, nd=nd if rng.random() < 0.85 else not nd, form=rng.choice(["seq", "tuple"]), ops=ops,
+                        plan_len=len(t_k))
+        sub["plan"] = gen_plan(rng, len(t_k), nonfinite=0.15)
+        sub["prior"] = {"tokens": [], "earlier": None}
+        subs.append(sub)
+    return {"history": subs, "prior": gen_prior(rng), "detector": rng.choice(["CCD", "CMOS", "APD"])}
+
+
 def build_cases(rng, tier):
     k = 1 if tier == "quick" else 12
     cases = []
@@ -722,6 +797,14 @@ def build_cases(rng, tier):
             cases.append(("float", gen_float(rng, kind)))
     for _ in range(10 * k):
         cases.append(("valid", gen_tiny_dyadic(rng)))
+    for _ in range(30 * k):
+        cases.append(("history", gen_history(rng)))
+    for _ in range(25 * k):
+        c = gen_valid(rng)
+        c["plan"] = gen_plan(rng, len(c["plan"]), nonfinite=0.25)
+        c["nd"] = rng.random() < 0.35
+        c["prior"]["tokens"][3] = special_tok(rng, "pixel") if rng.random() < 0.6 else c["prior"]["tokens"][3]
+        cases.append(("nonfinite-content", c))
     for mode, cnt in (("observation-seq", 10), ("observation-dask", 8), ("calibration", 3)):
         for _ in range(cnt * k):
             cases.append(("modes", gen_modes(rng, mode)))
@@ -731,7 +814,28 @@ def build_cases(rng, tier):
 def body(ck: common.Check):
     ck.obligations(["PyxelModel.Props.C02"], ["PyxelModel.Drive.C02"])
     cases = build_cases(ck.rng, ck.tier)
-    impls = [run_impl(c) for _, c in cases]  # fills c["_prior_seen"]
+    packed = pool_map(run_impl_packed, [c for _, c in cases])  # forked workers; the prior content each run saw comes back
+    impls0 = []
+    for (_, c), (impl, seen) in zip(cases, packed):
+        if "history" in c:
+            for sub, sv in zip(c["history"], seen):
+                sub["_prior_seen"] = sv
+        else:
+            c["_prior_seen"] = seen
+        impls0.append(impl)
+    # a history case is unfolded into its runs: every run is judged with its own Readout and compared with its own
+    # Lean session (whole = the history case, kept for the replay)
+    units = []
+    for (stream, case), impl in zip(cases, impls0):
+        if "history" in case:
+            ck.count("history-runs", len(case["history"]))
+            for k, (sub, si) in enumerate(zip(case["history"], impl["history"])):
+                units.append((stream, sub, si, (case, k)))
+        else:
+            units.append((stream, case, impl, None))
+    cases = [(st, c) for st, c, _, _ in units]
+    impls = [i for _, _, i, _ in units]
+    wholes = [w for _, _, _, w in units]
     answers = LeanDriver("C02").batch([lean_request(c) for _, c in cases])
     # arbitrary doubles: the same generic `steps` evaluated at Lean's `Float`, bit for bit
     fl = [(c, i) for (st, c), i in zip(cases, impls) if st == "float" and "obs" in i]
@@ -745,7 +849,7 @@ def body(ck: common.Check):
         ck.evaluations += 1
         if got_steps != a["steps"] or got_abs != a["abs"]:
             ck.disagreement("float-bits", {k: v for k, v in c.items() if not k.startswith("_")}, [got_steps, got_abs], [a["steps"], a["abs"]])
-    for (stream, case), impl, ans in zip(cases, impls, answers):
+    for (stream, case), impl, ans, whole in zip(cases, impls, answers, wholes):
         if "bad" in ans:
             raise common.InfraError(f"driver rejected request: {ans} for {case}")
         public = {k: v for k, v in case.items() if not k.startswith("_")}
@@ -764,6 +868,11 @@ def body(ck: common.Check):
             ck.count("invalid-kind=" + case["kind"])
         why = property_predicate(case, impl)
         replay = {"case": public, "impl": impl, "model": ans["model"]}
+        if whole is not None:
+            wc, k = whole
+            replay = {"case": strip_private(wc), "run": k, "impl": impl, "model": ans["model"]}
+            if why is not None:
+                why = (why[0], f"run #{k} of {len(wc['history'])} on one detector object: {why[1]}")
         if why is not None:
             ck.violation(why[0], why[1], replay)
         if "runs" in impl:
